@@ -286,3 +286,9 @@ def decrypt_kept(ctx):
                           'the retain predicate (line %d) is not membership in the given right universe' % c.ln,
                           'predicate = rights.contains_key(r)', c.where())
     ctx.floor(n, 3, 'operations of update_msk on msk.secrets')
+
+
+@rule('C06', 'witness-private', tier='thorough')
+def witness_private(ctx):
+    from .. import witness
+    witness.check(ctx, ['MasterKeyRepresentationIsPrivate', 'PublicKeyRepresentationIsPrivate'])
